@@ -148,14 +148,17 @@ Record sys := mkSys {
   code_set : bool;              (* exitCodeOnce already used *)
   thinst : amap iid;
   threads : amap thread;
-  run_called : bool }.
+  run_called : bool;
+  (* runProcess, in program order and on one thread: NewProcess (0), status := Pending (1), addRunningProcess (2),
+     waitGroup.Add + go (3); the entry disappears when the goroutine begins *)
+  stage : amap (tid * nat) }.
 #[export] Instance eta_sys : Settable _ :=
-  settable! mkSys <confs; ordered; viss; insts; running; donereg; reg_lock; sd_active; wg; proj_code; code_set; thinst; threads; run_called>.
+  settable! mkSys <confs; ordered; viss; insts; running; donereg; reg_lock; sd_active; wg; proj_code; code_set; thinst; threads; run_called; stage>.
 
 Definition init_vis (c : pconf) : vis := mkVis (if deferred c then SDisabled else SPending) 0 0 HUnknown.
 
 Definition init (cs : amap pconf) (ord : bool) : sys :=
-  mkSys cs ord (map (fun p => (fst p, init_vis (snd p))) cs) [] [] [] None None 0 0 false [] [] false.
+  mkSys cs ord (map (fun p => (fst p, init_vis (snd p))) cs) [] [] [] None None 0 0 false [] [] false [].
 
 Inductive event :=
 | ENewInst (i : iid) (n : name)      (* NewProcess(...) in runProcess *)
@@ -326,6 +329,17 @@ Definition own_inst (s : sys) (th : tid) : option (iid * inst) :=
 
 Definition set_pc (i : iid) (p : ipc) (s : sys) : sys := upd_inst i (fun x => x <| pc := p |>) s.
 
+Definition at_stage (s : sys) (th : tid) (i : iid) (k : nat) : bool :=
+  match get i (stage s) with Some (th', k') => N.eqb th th' && Nat.eqb k k' | None => false end.
+Definition set_stage (th : tid) (i : iid) (k : nat) (s : sys) : sys := s <| stage := set i (th, k) (stage s) |>.
+(* which process a thread is about to create: Run()'s spawn loop, StartProcess, RestartProcess *)
+Definition creates (t : thread) (n : name) : bool :=
+  match apc t with
+  | ARun todo => memN n todo
+  | AStartSpawn n' | ARestartSpawn n' => N.eqb n n'
+  | _ => false
+  end.
+
 Definition new_inst (n : name) (c : pconf) : inst :=
   mkInst n c (IDeps (map fst (deps c))) false false false false None false false None false false 0.
 
@@ -350,11 +364,13 @@ Fixpoint same_members (l1 l2 : list N) : bool :=
   end.
 
 (* spawn: runProcess created and registered the instance (ERegAdd); waitGroup.Add(1) precedes the TP *)
-Definition do_spawn (i : iid) (n : name) (s : sys) : option sys :=
+Definition do_spawn (th : tid) (i : iid) (n : name) (s : sys) : option sys :=
   do x <- get i (insts s);
   check N.eqb (nm x) n;
   check (match pc x with IDeps _ => true | _ => false end) && negb (has i (map (fun p => (snd p, tt)) (thinst s)));
-  Some (s <| wg := S (wg s) |>).
+  (* the goroutine is started once, by the thread that created and registered the instance *)
+  check at_stage s th i 2;
+  Some (set_stage th i 3 (s <| wg := S (wg s) |>)).
 
 (* registry operations, logged while the registry mutex is held *)
 Definition step_reg (s : sys) (th : tid) (e : event) : option sys :=
@@ -363,11 +379,13 @@ Definition step_reg (s : sys) (th : tid) (e : event) : option sys :=
   | ENewInst i n =>
       do c <- get n (confs s);
       check negb (has i (insts s));
-      Some (s <| insts := set i (new_inst n c) (insts s) |>)
+      check creates t n;
+      Some (set_stage th i 0 (s <| insts := set i (new_inst n c) (insts s) |>))
   | ERegAdd i n =>
       do x <- get i (insts s);
       check lock_free s && N.eqb (nm x) n && (match pc x with IDeps _ => true | _ => false end);
-      Some (s <| running := set n i (running s) |>)
+      check at_stage s th i 1;
+      Some (set_stage th i 2 (s <| running := set n i (running s) |>))
   | ERegDel i =>
       do x <- get i (insts s);
       check lock_free s && opt_eqb N.eqb (get (nm x) (running s)) (Some i);
@@ -477,7 +495,8 @@ Definition step_state (s : sys) (th : tid) (i : iid) (s0 : status) : option sys 
         (* runProcess: the new instance starts as Pending (before it is registered and started) *)
         check negb own && negb (has i (map (fun p => (snd p, tt)) (thinst s)))
               && (match pc x with IDeps _ => true | _ => false end);
-        Some (write_status (nm x) SPending s)
+        check at_stage s th i 0;
+        Some (set_stage th i 1 (write_status (nm x) SPending s))
       else
       check own;
       match pc x with
@@ -621,7 +640,7 @@ Definition step_api (s : sys) (th : tid) (e : event) : option sys :=
       end
   | ESpawn i n, ARun todo =>
       check memN n todo;
-      do s' <- do_spawn i n s; Some (setapc (ARun (removeN n todo)) s')
+      do s' <- do_spawn th i n s; Some (setapc (ARun (removeN n todo)) s')
   | ERunSpawned, ARun [] => Some (setapc ARunWait s)
   | ERunReturn c, ARunWait =>
       check Nat.eqb (wg s) 0 && Z.eqb c (proj_code s);
@@ -630,8 +649,8 @@ Definition step_api (s : sys) (th : tid) (e : event) : option sys :=
   | EStartChecked n found, AStart n' =>
       check N.eqb n n' && (match thread_reg t n with Some (Some _) => found | Some None => negb found | None => false end);
       Some (setapc (if found then AFail else if has n (confs s) then AStartSpawn n else AFail) s)
-  | ESpawn i n, AStartSpawn n' => check N.eqb n n'; do s' <- do_spawn i n s; Some (setapc AOk s')
-  | ESpawn i n, ARestartSpawn n' => check N.eqb n n'; do s' <- do_spawn i n s; Some (setapc AOk s')
+  | ESpawn i n, AStartSpawn n' => check N.eqb n n'; do s' <- do_spawn th i n s; Some (setapc AOk s')
+  | ESpawn i n, ARestartSpawn n' => check N.eqb n n'; do s' <- do_spawn th i n s; Some (setapc AOk s')
   | EApiReturn ok, AFail => check negb ok; Some (setapc AReturned s)
   | EApiReturn ok, AOk => check ok; Some (setapc AReturned s)
   | EStopChecked n found, AStop n' =>
@@ -727,6 +746,7 @@ Definition step_env (s : sys) (th : tid) (e : event) : option sys :=
   | EProbe i ok fatal =>
       do x <- get i (insts s);
       check ready_probe (cf x) && negb (has th (thinst s));
+      check Nat.ltb 0 (launches x);
       let t := get_thread s th in
       check (match spc t, apc t, dpc t with SIdle, ANone, DNone => true | _, _, _ => false end);
       if fatal then
@@ -766,7 +786,9 @@ Definition step_core (s : sys) (th : tid) (e : event) : option sys :=
       do x <- get i (insts s);
       check negb (has th (thinst s)) && negb (has th (threads s));
       check forallb (fun p => negb (N.eqb (snd p) i)) (thinst s);
-      Some (s <| thinst := set th i (thinst s) |>)
+      (* the goroutine that runProcess started for this instance *)
+      check (match get i (stage s) with Some (_, 3) => true | _ => false end);
+      Some (s <| thinst := set th i (thinst s) |> <| stage := del i (stage s) |>)
   | ENewInst _ _ | ERegAdd _ _ | ERegDel _ | ERegGet _ _ | EDoneAdd _ | EDoneGet _ _ => step_reg s th e
   | ESpawn _ _ | EApiBegin _ | EStartChecked _ _ | EStopChecked _ _ | ERestartChecked _ _ | ERestartStopped _
   | EApiReturn _ | ERunSpawned | ERunReturn _ | ENoRestart _ => step_api s th e
